@@ -13,7 +13,7 @@ import struct
 
 from ..engine import rule, run_property
 from ..model import Undecided
-from ..cfg import dotted, call_name, is_call, simple_name, unparse, const_value, contains, enclosing
+from ..cfg import same, dotted, call_name, is_call, simple_name, unparse, const_value, contains, enclosing
 from ..flow import Canon, Defs, depends, try_const, consteval, NotConst
 from ..util import keyword, returns_of, calls_in, inside, order_key
 
@@ -169,7 +169,7 @@ def c19a(ctx):
             sides = [v.left, v.right]
             sh = [e for e in sides if isinstance(e, ast.BinOp) and isinstance(e.op, ast.LShift)]
             pl = [e for e in sides if isinstance(e, ast.Name)]
-            ok = len(sh) == 1 and len(pl) == 1 and pl[0].id == 'offset' and unparse(sh[0].left) == 'size'
+            ok = len(sh) == 1 and len(pl) == 1 and pl[0].id == 'offset' and same(sh[0].left, 'size')
     ctx.check(ok, 'BundleV2._update_tile_offset:entry-form', 'writer stores offset + (size << k)', fnw,
               fail='the V2 index entry is not packed as one 64-bit value offset + (size << k): the reader (value >> k, value & mask) and the overflow '
                    'check of the pack (a size that does not fit its bits is refused, not truncated) assume exactly that form')
@@ -295,11 +295,11 @@ def c19c(ctx):
     # only loaded tiles are stored, all of them
     # renames guarded by stored_tiles
     for n, r in renames:
-        ok = g.guarded(n, lambda at: at.op is None and unparse(at.expr) == 'stored_tiles', True)
+        ok = g.guarded(n, lambda at: at.op is None and same(at.expr, 'stored_tiles'), True)
         ctx.check(ok, 'defrag:rename-if-stored', 'the temporary bundle is renamed into place only if tiles were stored', fn, r)
     # first rename: tmp .bundle -> bundle_file
     r0 = renames[0][1]
-    ok = contains(r0.args[0], lambda y: isinstance(y, ast.Name) and y.id == 'tmp_bundle') and unparse(r0.args[1]) == 'bundle_file'
+    ok = contains(r0.args[0], lambda y: isinstance(y, ast.Name) and y.id == 'tmp_bundle') and same(r0.args[1], 'bundle_file')
     ctx.check(ok, 'defrag:rename-direction', 'rename(temporary bundle, original name)', fn, r0)
     # temp bundle created with the original's offset
     dd = [v for v, sel in defs.of('defb')]
@@ -351,7 +351,7 @@ def c19e(ctx):
     ok = len(hdr_ops) == 2
     for x, prev in hdr_ops:
         ok = ok and prev is not None and is_call(prev, 'self._fh.seek') and try_const(prev.args[0]) == 0 and \
-            (len(prev.args) == 1 or unparse(prev.args[1]) == 'os.SEEK_SET')
+            (len(prev.args) == 1 or same(prev.args[1], 'os.SEEK_SET'))
     ctx.check(ok, 'BundleDataV1.append_tile:header-at-zero', 'the header is read from and written back to offset 0 (seek(0) directly before each)', fn,
               fail='the V1 header is read or rewritten at another position than offset 0: the record just appended or the header is overwritten')
     defs = Defs(fn.node)
